@@ -7,7 +7,7 @@
 use crate::codec::Frame;
 use crate::families::aio::{self, FrameReader};
 use crate::families::client_blocking::draw_net;
-use crate::framework::{Case, Family, bytes, pick, range, u64_boundary};
+use crate::framework::{Case, Family, bytes, coin, pick, range, u64_boundary};
 use repe::header::Header;
 use repe::message::{Message, MessageView};
 use repe::server::{HandlerErased, Router};
@@ -377,10 +377,27 @@ fn c01_routes(case: &Case) {
             return;
         }
     }
-    let mut buf = Vec::new();
+    // the caller's buffer is reused: it arrives holding whatever an earlier frame left in it
+    let leftover = |n: usize| -> Vec<u8> { crate::codec::pattern(0xfeed, n) };
+    let prefill = pick(&[0usize, 0, 7, 48, want.len().saturating_sub(1), want.len(), want.len() + 1, want.len() + 4097]);
+    // ... and a second, shorter or longer frame follows on the same stream into the same buffer
+    let mut f_b = f.clone();
+    f_b.id = f.id ^ 1;
+    f_b.body = match simkernel::choose(3) {
+        0 => f.body[..f.body.len() / 2].to_vec(),
+        1 => Vec::new(),
+        _ => [f.body.clone(), crate::codec::pattern(f.id, 1 + f.body.len() / 3)].concat(),
+    };
+    f_b.body_length = f_b.body.len() as u64;
+    f_b.length = (crate::codec::HDR + f_b.query.len() + f_b.body.len()) as u64;
+    let want_b = f_b.encode();
+    let a_first = coin();
+    let order: [&Vec<u8>; 2] = if a_first { [&want, &want_b] } else { [&want_b, &want] };
+    let two = [order[0].clone(), order[1].clone()].concat();
+    let mut buf = leftover(prefill);
     match repe::read_message_into(&mut FaultySource { data: &want, pos: 0 }, &mut buf) {
         Ok(()) => {
-            if !same(case, "read_message_into", &buf, &want, &what) {
+            if !same(case, "read_message_into", &buf, &want, &format!("{what}; buffer arrived holding {prefill} bytes")) {
                 return;
             }
         }
@@ -389,8 +406,26 @@ fn c01_routes(case: &Case) {
             return;
         }
     }
+    {
+        let mut src = FaultySource { data: &two, pos: 0 };
+        let mut buf = leftover(prefill);
+        for (k, w) in order.iter().enumerate() {
+            match repe::read_message_into(&mut src, &mut buf) {
+                Ok(()) => {
+                    if !same(case, "read_message_into", &buf, w, &format!("{what}; frame {k} of two on one stream into one reused buffer")) {
+                        return;
+                    }
+                }
+                Err(e) => {
+                    case.fail("round-trip-differs", format!("read_message_into failed on frame {k} of two: {e} ({what})"));
+                    return;
+                }
+            }
+        }
+    }
     // --- async twins (Pending + short I/O), on the deterministic runtime
     let (case2, f2, want2, what2, msg2) = (case.clone(), f.clone(), want.clone(), what.clone(), msg.clone());
+    let (two2, order2): (Vec<u8>, Vec<Vec<u8>>) = (two.clone(), order.iter().map(|w| (*w).clone()).collect());
     aio::run_or_error(case, 600, async move {
         let mut s = FaultyAsyncSink { out: Vec::new() };
         if repe::async_io::write_message_async(&mut s, &msg2).await.is_err() || !same(&case2, "write_message_async", &s.out, &want2, &what2) {
@@ -402,12 +437,26 @@ fn c01_routes(case: &Case) {
             }
             Err(e) => case2.fail("round-trip-differs", format!("read_message_async failed on its own frame: {e} ({what2})")),
         }
-        let mut buf = Vec::new();
+        let mut buf = crate::codec::pattern(0xfeed, prefill);
         match repe::async_io::read_message_into_async(&mut FaultyAsyncSource { data: &want2, pos: 0 }, &mut buf).await {
             Ok(()) => {
-                same(&case2, "read_message_into_async", &buf, &want2, &what2);
+                same(&case2, "read_message_into_async", &buf, &want2, &format!("{what2}; buffer arrived holding {prefill} bytes"));
             }
             Err(e) => case2.fail("round-trip-differs", format!("read_message_into_async failed on its own frame: {e} ({what2})")),
+        }
+        let mut src = FaultyAsyncSource { data: &two2, pos: 0 };
+        for (k, w) in order2.iter().enumerate() {
+            match repe::async_io::read_message_into_async(&mut src, &mut buf).await {
+                Ok(()) => {
+                    if !same(&case2, "read_message_into_async", &buf, w, &format!("{what2}; frame {k} of two on one stream into one reused buffer")) {
+                        return;
+                    }
+                }
+                Err(e) => {
+                    case2.fail("round-trip-differs", format!("read_message_into_async failed on frame {k} of two: {e} ({what2})"));
+                    return;
+                }
+            }
         }
     });
     // --- one interop fixture per run: decoded by the oracle, re-emitted by the library
